@@ -101,7 +101,12 @@ def finish(rep):
               violations=len(unlisted), known_findings=len(listed), warnings=rep.warnings[:20],
               machinery_errors=rep.machinery[:5])
     os.makedirs(EVIDENCE, exist_ok=True)
-    with open(os.path.join(EVIDENCE, "%s.json" % rep.prop), "w") as fh:
+    target = os.path.join(EVIDENCE, "%s.json" % rep.prop)
+    if getattr(rep, "is_replay", False):
+        # a replay re-drives ONE recorded input: it must not overwrite the evidence of the property's check
+        os.makedirs(REPLAYS, exist_ok=True)
+        target = os.path.join(REPLAYS, "%s-last-replay-evidence.json" % rep.prop)
+    with open(target, "w") as fh:
         json.dump(ev, fh, indent=1, sort_keys=True, default=str)
     for key, (k, v) in listed.items():
         print("KNOWN-FINDING: property=%s %s" % (rep.prop, k.get("what", key)))
